@@ -46,7 +46,7 @@ def _observe_blob(arg):
     warnings.filterwarnings('ignore')
     blob, fn_name, kw = arg
     from . import observer_funcs
-    c = pickle.loads(blob)
+    c = pickle.loads(blob) if blob is not None else None
     return getattr(observer_funcs, fn_name)(c, **kw)
 
 
